@@ -512,8 +512,8 @@ func (n *ForNode) renderForLoop(w io.Writer, ctx *RenderContext, seq interface{}
 			loopVars["loop"].(map[string]interface{})["last"] = i == length-1
 
 			// Set the value variable
-			if val.MapIndex(key).CanInterface() {
-				loopCtx.SetVariable(n.valueVar, val.MapIndex(key).Interface())
+			if entry := val.MapIndex(key); entry.IsValid() && entry.CanInterface() {
+				loopCtx.SetVariable(n.valueVar, entry.Interface())
 			} else {
 				loopCtx.SetVariable(n.valueVar, nil)
 			}
